@@ -145,6 +145,12 @@ def run(tier: str, seed: int) -> int:
         chk.count(("d", sub), nontrivial)
         # ---- save data is independent of the running game ----
         if t1 and t1[-1]["view"] is not None:
+            # objects among the variables (as a host application or an imported class puts them there): one whose class
+            # the loading engine does not know (it is restored as plain data), nested containers at depth
+            import types
+            e1.state["ns"] = types.SimpleNamespace(items=[1, [2, 3]], table={"k": [4, {"z": [5]}]}, name="x")
+            e1.state["ns_list"] = [types.SimpleNamespace(tags=["a", ["b"]]), {"deep": {"deeper": [types.SimpleNamespace(v=[0])]}}]
+            stats["objects_injected"] = stats.get("objects_injected", 0) + 2
             with C.quiet():
                 try:
                     doc = e1.save_state()
